@@ -1,7 +1,12 @@
 (* Task PR2: whatever message the reader accepts yields a coherent content whose every attribute equals the
    corresponding message field.  Generic lemmas, rejection classes (3) and the header gate (4) are in ProtoReaderBase.v.
 
-   Termination/totality of from_proto is by construction (structural recursion only), see ProtoReaderBase.v. *)
+   Termination/totality of from_proto is by construction (structural recursion only), see ProtoReaderBase.v.
+
+   History: against the first version of Model/Proto.v (decode_bi decoded the blocks of an interval BEFORE entering
+   the interval in the table) accept_coherent was false: an interval containing a block with the interval's own UUID
+   was accepted and loaded with that UUID twice.  The implementation and the model were repaired (the interval now
+   registers itself first); accept_coherent below holds with msg_ok as its only premise. *)
 From Coq Require Import String ZArith List Bool Lia Permutation.
 From V Require Import Result Bytes BytesProofs PyFacts Proto ProtoReaderBase.
 Import ListNotations.
@@ -135,31 +140,29 @@ Proof.
   rewrite Hab, IH. reflexivity.
 Qed.
 
-Section MapRes.
-  Context {X Y : Type} (f : table -> X -> res (Y * table)) (E : Y -> table)
-          (P : X -> Prop) (Q : table -> X -> Y -> Prop).
-  Hypothesis Hf : forall t x y t1, f t x = Ok (y, t1) -> P x -> tinv t -> t1 = E y ++ t /\ tinv t1 /\ Q t1 x y.
-  Hypothesis Qmono : forall t t' x y, incl t t' -> Q t x y -> Q t' x y.
-
-  Lemma map_res_inv : forall l t ys t',
+Lemma map_res_inv {X Y : Type} (f : table -> X -> res (Y * table)) (E : Y -> table)
+      (P : X -> Prop) (Q : table -> X -> Y -> Prop) :
+  (forall t x y t1, f t x = Ok (y, t1) -> P x -> tinv t -> t1 = E y ++ t /\ tinv t1 /\ Q t1 x y) ->
+  (forall t t' x y, incl t t' -> Q t x y -> Q t' x y) ->
+  forall l t ys t',
     map_res f t l = Ok (ys, t') -> Forall P l -> tinv t ->
     t' = rflat E ys ++ t /\ tinv t' /\ Forall2 (Q t') l ys.
-  Proof.
-    induction l as [|x l IH]; intros t ys t' H HP Ht; cbn [map_res] in H.
-    - injection H as <- <-. split; [reflexivity|]. split; [exact Ht|constructor].
-    - bind_inv H r Hr. destruct r as [y t1]. cbv beta iota in H.
-      bind_inv H r' Hr'. destruct r' as [ys' t2]. cbv beta iota in H.
-      injection H as <- <-.
-      inversion HP as [|x' l' HPx HPl]; subst.
-      destruct (Hf _ _ _ _ Hr HPx Ht) as [E1 [Ht1 HQ]].
-      destruct (IH _ _ _ Hr' HPl Ht1) as [E2 [Ht2 HF]].
-      split; [|split].
-      + cbn [rflat]. rewrite E2, E1. rewrite app_assoc. reflexivity.
-      + exact Ht2.
-      + constructor; [|exact HF]. apply (Qmono t1); [|exact HQ].
-        rewrite E2. apply incl_appr. apply incl_refl.
-  Qed.
-End MapRes.
+Proof.
+  intros Hf Qmono.
+  induction l as [|x l IH]; intros t ys t' H HP Ht; cbn [map_res] in H.
+  - injection H as <- <-. split; [reflexivity|]. split; [exact Ht|constructor].
+  - bind_inv H r Hr. destruct r as [y t1]. cbv beta iota in H.
+    bind_inv H r' Hr'. destruct r' as [ys' t2]. cbv beta iota in H.
+    injection H as <- <-.
+    inversion HP as [|x' l' HPx HPl]; subst.
+    destruct (Hf _ _ _ _ Hr HPx Ht) as [E1 [Ht1 HQ]].
+    destruct (IH _ _ _ Hr' HPl Ht1) as [E2 [Ht2 HF]].
+    split; [|split].
+    + cbn [rflat]. rewrite E2, E1. rewrite app_assoc. reflexivity.
+    + exact Ht2.
+    + constructor; [|exact HF]. apply (Qmono t1); [|exact HQ].
+      rewrite E2. apply incl_appr. apply incl_refl.
+Qed.
 
 (* ------------------------------------------------------------------ *)
 (* blocks                                                               *)
@@ -201,3 +204,1026 @@ Proof.
     [exact H| |intros; assumption|exact HP|exact Ht].
   intros t0 x y t1 H0 Hx Ht0. exact (decode_block_inv _ _ _ _ H0 Hx Ht0).
 Qed.
+
+(* ------------------------------------------------------------------ *)
+(* byte intervals, first stage                                          *)
+(* ------------------------------------------------------------------ *)
+Definition ents_bi (b : cBI) : table := rflat ents_block (ci_blocks b) ++ [(ci_uuid b, NBI)].
+Definition ents_bi0 (b0 : cBI0) : table := ents_bi (c0 b0).
+Definition Rbi0 (pb : pBI) (b0 : cBI0) : Prop :=
+  bytes_of_uuid (ci_uuid (c0 b0)) = bi_uuid pb
+  /\ ci_addr (c0 b0) = (if bi_has_addr pb then Some (bi_addr pb) else None)
+  /\ ci_size (c0 b0) = bi_size pb
+  /\ ci_contents (c0 b0) = bi_contents pb
+  /\ Forall2 Rblk (bi_blocks pb) (ci_blocks (c0 b0))
+  /\ c0_symx b0 = bi_symx pb
+  /\ Z.of_nat (length (bi_contents pb)) <= bi_size pb
+  /\ bi_msg_ok pb = true.
+
+Lemma bi_msg_ok_inv : forall b, bi_msg_ok b = true ->
+  bytes_ok (bi_uuid b) = true /\ forallb (fun k => blockval_ok (b_val k)) (bi_blocks b) = true
+  /\ forallb (fun kv => exprval_ok (x_val (snd kv))) (bi_symx b) = true /\ nodup_z (map fst (bi_symx b)) = true
+  /\ forallb byte_ok (bi_contents b) = true.
+Proof.
+  intros b H. unfold bi_msg_ok in H. repeat rewrite andb_true_iff in H.
+  destruct H as [[[[H1 H2] H3] H4] H5]. repeat split; assumption.
+Qed.
+
+Lemma decode_bi_inv : forall t pb b0 t1,
+  decode_bi t pb = Ok (b0, t1) -> bi_msg_ok pb = true -> tinv t ->
+  t1 = ents_bi0 b0 ++ t /\ tinv t1 /\ Rbi0 pb b0.
+Proof.
+  intros t pb b0 t1 H Hok Ht. unfold decode_bi in H.
+  destruct (bi_msg_ok_inv _ Hok) as [Hu_ok [Hbl_ok _]].
+  bind_inv H u Hu. bind_inv H x Hfr.
+  destruct (bi_size pb <? Z.of_nat (length (bi_contents pb))) eqn:Esz; [discriminate H|].
+  bind_inv H r Hr. destruct r as [blocks t0]. cbv beta iota in H. injection H as <- <-.
+  assert (Ht' : tinv ((u, NBI) :: t)).
+  { apply tinv_cons; [exact Ht|exact (fresh_notIn _ _ _ _ Hfr)|exact (uuid_of_bytes_range _ _ Hu Hu_ok)]. }
+  apply map_decode_block_inv in Hr; [|apply forallb_Forall; exact Hbl_ok|exact Ht'].
+  destruct Hr as [E0 [Ht0 HF]].
+  split; [|split].
+  - unfold ents_bi0, ents_bi. cbn [c0 ci_blocks ci_uuid]. rewrite E0. rewrite <- app_assoc. reflexivity.
+  - exact Ht0.
+  - unfold Rbi0. cbn [c0 c0_symx ci_uuid ci_addr ci_size ci_contents ci_blocks].
+    split; [exact (bytes_of_uuid_of_bytes _ _ Hu Hu_ok)|].
+    split; [reflexivity|]. split; [reflexivity|]. split; [reflexivity|]. split; [exact HF|].
+    split; [reflexivity|]. split; [apply Z.ltb_ge; exact Esz|exact Hok].
+Qed.
+
+Lemma map_decode_bi_inv : forall l t ys t',
+  map_res decode_bi t l = Ok (ys, t') -> Forall (fun b => bi_msg_ok b = true) l -> tinv t ->
+  t' = rflat ents_bi0 ys ++ t /\ tinv t' /\ Forall2 Rbi0 l ys.
+Proof.
+  intros l t ys t' H HP Ht.
+  apply (map_res_inv decode_bi ents_bi0 (fun b => bi_msg_ok b = true) (fun _ => Rbi0)) in H;
+    [exact H| |intros; assumption|exact HP|exact Ht].
+  intros t0 x y t1 H0 Hx Ht0. exact (decode_bi_inv _ _ _ _ H0 Hx Ht0).
+Qed.
+
+(* ------------------------------------------------------------------ *)
+(* sections, first stage                                                *)
+(* ------------------------------------------------------------------ *)
+Definition sec0 : Type := (Z * list Z * list Z * list cBI0)%type.
+Definition ents_sec0 (s : sec0) : table := let '(u, _, _, bis) := s in rflat ents_bi0 bis ++ [(u, NSec)].
+Definition Rsec0 (ps : pSection) (s : sec0) : Prop :=
+  let '(u, nm, fl, bis) := s in
+  bytes_of_uuid u = s_uuid ps /\ nm = s_name ps /\ fl = dedup_z (s_flags ps)
+  /\ forallb (enum_ok "SectionFlag") (s_flags ps) = true /\ Forall2 Rbi0 (s_bis ps) bis.
+
+Lemma decode_section_inv : forall t ps s t1,
+  decode_section t ps = Ok (s, t1) -> sec_msg_ok ps = true -> tinv t ->
+  t1 = ents_sec0 s ++ t /\ tinv t1 /\ Rsec0 ps s.
+Proof.
+  intros t ps s t1 H Hok Ht. unfold decode_section in H.
+  unfold sec_msg_ok in Hok. apply andb_true_iff in Hok. destruct Hok as [Hu_ok Hbis_ok].
+  bind_inv H u Hu. bind_inv H x Hfr. bind_inv H x' Hfl.
+  bind_inv H r Hr. destruct r as [bis t0]. cbv beta iota in H. injection H as <- <-.
+  assert (Ht' : tinv ((u, NSec) :: t)).
+  { apply tinv_cons; [exact Ht|exact (fresh_notIn _ _ _ _ Hfr)|exact (uuid_of_bytes_range _ _ Hu Hu_ok)]. }
+  apply map_decode_bi_inv in Hr; [|apply forallb_Forall; exact Hbis_ok|exact Ht'].
+  destruct Hr as [E0 [Ht0 HF]].
+  split; [|split].
+  - unfold ents_sec0. rewrite E0. rewrite <- app_assoc. reflexivity.
+  - exact Ht0.
+  - unfold Rsec0. split; [exact (bytes_of_uuid_of_bytes _ _ Hu Hu_ok)|].
+    split; [reflexivity|]. split; [reflexivity|]. split; [exact (iter_res_forallb _ _ _ Hfl)|exact HF].
+Qed.
+
+Lemma map_decode_section_inv : forall l t ys t',
+  map_res decode_section t l = Ok (ys, t') -> Forall (fun s => sec_msg_ok s = true) l -> tinv t ->
+  t' = rflat ents_sec0 ys ++ t /\ tinv t' /\ Forall2 Rsec0 l ys.
+Proof.
+  intros l t ys t' H HP Ht.
+  apply (map_res_inv decode_section ents_sec0 (fun s => sec_msg_ok s = true) (fun _ => Rsec0)) in H;
+    [exact H| |intros; assumption|exact HP|exact Ht].
+  intros t0 x y t1 H0 Hx Ht0. exact (decode_section_inv _ _ _ _ H0 Hx Ht0).
+Qed.
+
+(* ------------------------------------------------------------------ *)
+(* proxies                                                              *)
+(* ------------------------------------------------------------------ *)
+Definition ents_proxy (u : Z) : table := [(u, NProxy)].
+Definition Rprx (bs : list Z) (u : Z) : Prop := bytes_of_uuid u = bs.
+
+Lemma decode_proxy_inv : forall t bs u t1,
+  decode_proxy t bs = Ok (u, t1) -> bytes_ok bs = true -> tinv t ->
+  t1 = ents_proxy u ++ t /\ tinv t1 /\ Rprx bs u.
+Proof.
+  intros t bs u t1 H Hok Ht. unfold decode_proxy in H.
+  bind_inv H v Hv. bind_inv H x Hfr. injection H as <- <-.
+  split; [reflexivity|]. split.
+  - apply tinv_cons; [exact Ht|exact (fresh_notIn _ _ _ _ Hfr)|exact (uuid_of_bytes_range _ _ Hv Hok)].
+  - exact (bytes_of_uuid_of_bytes _ _ Hv Hok).
+Qed.
+
+Lemma map_decode_proxy_inv : forall l t ys t',
+  map_res decode_proxy t l = Ok (ys, t') -> Forall (fun b => bytes_ok b = true) l -> tinv t ->
+  t' = rflat ents_proxy ys ++ t /\ tinv t' /\ Forall2 Rprx l ys.
+Proof.
+  intros l t ys t' H HP Ht.
+  apply (map_res_inv decode_proxy ents_proxy (fun b => bytes_ok b = true) (fun _ => Rprx)) in H;
+    [exact H| |intros; assumption|exact HP|exact Ht].
+  intros t0 x y t1 H0 Hx Ht0. exact (decode_proxy_inv _ _ _ _ H0 Hx Ht0).
+Qed.
+
+(* ------------------------------------------------------------------ *)
+(* symbols                                                              *)
+(* ------------------------------------------------------------------ *)
+Definition ents_sym (y : cSymbol) : table := [(cy_uuid y, NSym)].
+Definition Rsym (T : table) (py : pSymbol) (y : cSymbol) : Prop :=
+  symbol_to_proto y = py
+  /\ forall r, cy_payload y = CPRef r -> exists k, In (r, k) T /\ is_block_kind k = true.
+
+Lemma Rsym_mono : forall t t' py y, incl t t' -> Rsym t py y -> Rsym t' py y.
+Proof.
+  intros t t' py y Hi [H1 H2]. split; [exact H1|].
+  intros r Hr. destruct (H2 r Hr) as [k [Hk Hb]]. exists k. split; [apply Hi; exact Hk|exact Hb].
+Qed.
+
+Lemma decode_symbol_inv : forall t py y t1,
+  decode_symbol t py = Ok (y, t1) -> sym_msg_ok py = true -> tinv t ->
+  t1 = ents_sym y ++ t /\ tinv t1 /\ Rsym t1 py y.
+Proof.
+  intros t [yu ypl ynm yae] y t1 H Hok Ht. unfold decode_symbol in H.
+  unfold sym_msg_ok in Hok. cbn [y_uuid y_payload y_name y_at_end] in *.
+  apply andb_true_iff in Hok. destruct Hok as [Hu_ok Hp_ok].
+  bind_inv H u Hu. bind_inv H x Hfr. bind_inv H pl Hpl. injection H as <- <-.
+  split; [reflexivity|]. split.
+  - apply tinv_cons; [exact Ht|exact (fresh_notIn _ _ _ _ Hfr)|exact (uuid_of_bytes_range _ _ Hu Hu_ok)].
+  - unfold Rsym, symbol_to_proto. cbn [cy_uuid cy_name cy_payload cy_at_end].
+    rewrite (bytes_of_uuid_of_bytes _ _ Hu Hu_ok).
+    destruct ypl as [|v|bs].
+    + injection Hpl as <-. split; [reflexivity|]. intros r Hr. discriminate Hr.
+    + injection Hpl as <-. split; [reflexivity|]. intros r Hr. discriminate Hr.
+    + bind_inv Hpl r0 Hr0. injection Hpl as <-.
+      apply resolve_ok in Hr0. destruct Hr0 as [Hr0 [k [Hk Hb]]].
+      rewrite (bytes_of_uuid_of_bytes _ _ Hr0 Hp_ok). split; [reflexivity|].
+      intros r Hr. injection Hr as <-. exists k. split; [right; exact Hk|exact Hb].
+Qed.
+
+Lemma map_decode_symbol_inv : forall l t ys t',
+  map_res decode_symbol t l = Ok (ys, t') -> Forall (fun y => sym_msg_ok y = true) l -> tinv t ->
+  t' = rflat ents_sym ys ++ t /\ tinv t' /\ Forall2 (Rsym t') l ys.
+Proof.
+  intros l t ys t' H HP Ht.
+  apply (map_res_inv decode_symbol ents_sym (fun y => sym_msg_ok y = true) Rsym) in H;
+    [exact H| |exact Rsym_mono|exact HP|exact Ht].
+  intros t0 x y t1 H0 Hx Ht0. exact (decode_symbol_inv _ _ _ _ H0 Hx Ht0).
+Qed.
+
+(* ------------------------------------------------------------------ *)
+(* symbolic expressions                                                 *)
+(* ------------------------------------------------------------------ *)
+Definition Rx (T : table) (kv : Z * pExpr) (kv' : Z * cExpr) : Prop :=
+  fst kv' = fst kv /\ expr_to_proto (snd kv') = norm_expr (snd kv)
+  /\ (forall y, In y (expr_syms (snd kv')) -> In (y, NSym) T)
+  /\ nodup_z (cx_attrs (snd kv')) = true.
+
+Lemma resolve_sym : forall T bs u,
+  resolve T bs (fun k => nkind_eqb k NSym) = Ok u -> bytes_ok bs = true ->
+  bytes_of_uuid u = bs /\ In (u, NSym) T.
+Proof.
+  intros T bs u H Hok. apply resolve_ok in H. destruct H as [Hu [k [Hk Hb]]].
+  apply nkind_eqb_eq in Hb. subst k. split; [exact (bytes_of_uuid_of_bytes _ _ Hu Hok)|exact Hk].
+Qed.
+
+Lemma decode_expr_inv : forall T kv kv',
+  decode_expr T kv = Ok kv' -> exprval_ok (x_val (snd kv)) = true -> Rx T kv kv'.
+Proof.
+  intros T [k [v attrs]] kv' H Hok. unfold decode_expr in H. cbn [fst snd x_val x_attrs] in *.
+  bind_inv H cv Hcv. injection H as <-. unfold Rx. cbn [fst snd cx_attrs].
+  split; [reflexivity|]. unfold expr_to_proto, norm_expr, expr_syms. cbn [cx_val cx_attrs x_val x_attrs].
+  destruct v as [off s|sc off s1 s2|]; cbn [exprval_ok] in Hok.
+  - bind_inv Hcv u Hu. injection Hcv as <-. destruct (resolve_sym _ _ _ Hu Hok) as [Eb Hin].
+    rewrite Eb. split; [reflexivity|]. split; [|apply dedup_z_nodup].
+    intros y [Hy|[]]. subst y. exact Hin.
+  - apply andb_true_iff in Hok. destruct Hok as [Hok1 Hok2].
+    bind_inv Hcv u1 Hu1. bind_inv Hcv u2 Hu2. injection Hcv as <-.
+    destruct (resolve_sym _ _ _ Hu1 Hok1) as [Eb1 Hin1]. destruct (resolve_sym _ _ _ Hu2 Hok2) as [Eb2 Hin2].
+    rewrite Eb1, Eb2. split; [reflexivity|]. split; [|apply dedup_z_nodup].
+    intros y [Hy|[Hy|[]]]; subst y; assumption.
+  - discriminate Hcv.
+Qed.
+
+(* ------------------------------------------------------------------ *)
+(* byte intervals, second stage                                         *)
+(* ------------------------------------------------------------------ *)
+Definition Rbi (T : table) (pb : pBI) (b : cBI) : Prop :=
+  bi_to_proto b = norm_bi pb /\ bi_ok b = true
+  /\ forall kv y, In kv (ci_symx b) -> In y (expr_syms (snd kv)) -> In (y, NSym) T.
+
+Lemma finish_bi_inv : forall T pb b0 b,
+  Rbi0 pb b0 -> finish_bi T b0 = Ok b -> Rbi T pb b /\ ents_bi0 b0 = ents_bi b.
+Proof.
+  intros T pb [cb sx] b HR H. unfold Rbi0 in HR. cbn [c0 c0_symx] in HR.
+  destruct HR as [Eu [Ea [Esz [Ect [HFb [Esx [Hle Hok]]]]]]].
+  destruct (bi_msg_ok_inv _ Hok) as [_ [_ [Hx_ok [Hkeys Hbytes]]]].
+  unfold finish_bi in H. cbn [c0 c0_symx] in H. bind_inv H xs Hxs. injection H as <-.
+  apply map_res0_Forall2 in Hxs. subst sx.
+  assert (HFx : Forall2 (Rx T) (bi_symx pb) xs).
+  { apply (Forall2_Forall_l _ (fun kv => exprval_ok (x_val (snd kv)) = true)) in Hxs;
+      [|apply forallb_Forall; exact Hx_ok].
+    revert Hxs. apply Forall2_impl. intros kv kv' [Hkv Hd]. exact (decode_expr_inv _ _ _ Hd Hkv). }
+  split; [|reflexivity]. unfold Rbi. split; [|split].
+  - unfold bi_to_proto, norm_bi. cbn [ci_uuid ci_addr ci_size ci_contents ci_blocks ci_symx].
+    rewrite Eu, Ea, Esz, Ect.
+    assert (Eb : map block_to_proto (ci_blocks cb) = bi_blocks pb).
+    { rewrite <- (map_id (bi_blocks pb)). apply Forall2_map_eq.
+      revert HFb. apply Forall2_impl. intros x y [Hxy _]. exact Hxy. }
+    assert (Ex : map (fun kv => (fst kv, expr_to_proto (snd kv))) xs
+                 = map (fun kv => (fst kv, norm_expr (snd kv))) (bi_symx pb)).
+    { apply Forall2_map_eq. revert HFx. apply Forall2_impl.
+      intros x y [H1 [H2 _]]. rewrite H1, H2. reflexivity. }
+    rewrite Eb, Ex. destruct (bi_has_addr pb); reflexivity.
+  - unfold bi_ok. cbn [ci_uuid ci_addr ci_size ci_contents ci_blocks ci_symx].
+    rewrite Esz, Ect. repeat rewrite andb_true_iff. repeat split.
+    + apply Z.leb_le. exact Hle.
+    + exact Hbytes.
+    + apply (Forall2_forallb_r _ _ _ _ HFb). intros x y [_ Hdm]. exact Hdm.
+    + assert (Ek : map fst xs = map fst (bi_symx pb)).
+      { apply Forall2_map_eq. revert HFx. apply Forall2_impl. intros x y [H1 _]. exact H1. }
+      rewrite Ek. exact Hkeys.
+    + apply (Forall2_forallb_r _ _ _ _ HFx). intros x y [_ [_ [_ Hnd]]]. exact Hnd.
+  - cbn [ci_symx]. intros kv y Hkv Hy.
+    destruct (Forall2_in_r _ _ _ HFx kv Hkv) as [pkv [_ [_ [_ [Hs _]]]]]. exact (Hs y Hy).
+Qed.
+
+Lemma Rbi_mono : forall t t' pb b, incl t t' -> Rbi t pb b -> Rbi t' pb b.
+Proof.
+  intros t t' pb b Hi [H1 [H2 H3]]. split; [exact H1|]. split; [exact H2|].
+  intros kv y Hkv Hy. apply Hi. exact (H3 kv y Hkv Hy).
+Qed.
+
+(* ------------------------------------------------------------------ *)
+(* sections, second stage                                               *)
+(* ------------------------------------------------------------------ *)
+Definition ents_sec (s : cSection) : table := rflat ents_bi (cs_bis s) ++ [(cs_uuid s, NSec)].
+Definition sec_local_ok (s : cSection) : bool :=
+  forallb (enum_ok "SectionFlag") (cs_flags s) && nodup_z (cs_flags s) && forallb bi_ok (cs_bis s).
+Definition Rsec (T : table) (ps : pSection) (s : cSection) : Prop :=
+  section_to_proto s = norm_section ps /\ sec_local_ok s = true
+  /\ forall b kv y, In b (cs_bis s) -> In kv (ci_symx b) -> In y (expr_syms (snd kv)) -> In (y, NSym) T.
+
+Lemma finish_section_inv : forall T ps s0 s,
+  Rsec0 ps s0 -> finish_section T s0 = Ok s -> Rsec T ps s /\ ents_sec0 s0 = ents_sec s.
+Proof.
+  intros T ps [[[u nm] fl] bis0] s HR H. unfold Rsec0 in HR. destruct HR as [Eu [Enm [Efl [Hfl HF0]]]].
+  unfold finish_section in H. bind_inv H bs Hbs. injection H as <-.
+  apply map_res0_Forall2 in Hbs.
+  pose proof (Forall2_comp _ _ _ _ HF0 _ Hbs) as HF. cbn beta in HF.
+  assert (HF' : Forall2 (fun pb b => Rbi T pb b /\ exists b0, Rbi0 pb b0 /\ ents_bi0 b0 = ents_bi b) (s_bis ps) bs).
+  { revert HF. apply Forall2_impl. intros pb b [b0 [H0 Hfin]].
+    destruct (finish_bi_inv _ _ _ _ H0 Hfin) as [H1 H2]. split; [exact H1|]. exists b0. split; assumption. }
+  split.
+  - unfold Rsec. split; [|split].
+    + unfold section_to_proto, norm_section. cbn [cs_uuid cs_name cs_flags cs_bis]. rewrite Eu, Enm, Efl.
+      assert (Eb : map bi_to_proto bs = map norm_bi (s_bis ps)).
+      { apply Forall2_map_eq. revert HF'. apply Forall2_impl. intros x y [[H1 _] _]. exact H1. }
+      rewrite Eb. reflexivity.
+    + unfold sec_local_ok. cbn [cs_flags cs_bis]. subst fl.
+      rewrite (dedup_z_forallb _ _ Hfl), dedup_z_nodup. cbn [andb].
+      apply (Forall2_forallb_r _ _ _ _ HF'). intros x y [[_ [H2 _]] _]. exact H2.
+    + cbn [cs_bis]. intros b kv y Hb Hkv Hy.
+      destruct (Forall2_in_r _ _ _ HF' b Hb) as [pb [_ [[_ [_ H3]] _]]]. exact (H3 kv y Hkv Hy).
+  - unfold ents_sec0, ents_sec. cbn [cs_bis cs_uuid]. f_equal.
+    apply rflat_ext2. revert Hbs HF0. clear. intros Hbs HF0.
+    revert Hbs. apply Forall2_impl_in. intros b0 b Hb0 Hb Hfin.
+    destruct (Forall2_in_r _ _ _ HF0 b0 Hb0) as [pb [_ H0]].
+    exact (proj2 (finish_bi_inv _ _ _ _ H0 Hfin)).
+Qed.
+
+Lemma Rsec_mono : forall t t' ps s, incl t t' -> Rsec t ps s -> Rsec t' ps s.
+Proof.
+  intros t t' ps s Hi [H1 [H2 H3]]. split; [exact H1|]. split; [exact H2|].
+  intros b kv y Hb Hkv Hy. apply Hi. exact (H3 b kv y Hb Hkv Hy).
+Qed.
+
+(* ------------------------------------------------------------------ *)
+(* modules                                                              *)
+(* ------------------------------------------------------------------ *)
+Definition ents_module (cm : cModule) : table :=
+  rflat ents_sym (cm_symbols cm) ++ rflat ents_sec (cm_sections cm) ++ rflat ents_proxy (cm_proxies cm)
+  ++ [(cm_uuid cm, NMod)].
+
+Definition Rmod (T : table) (pm : pModule) (cm : cModule) : Prop :=
+  module_to_proto cm = norm_module pm
+  /\ enum_ok "ISA" (cm_isa cm) && enum_ok "FileFormat" (cm_file_format cm) && enum_ok "ByteOrder" (cm_byte_order cm) = true
+  /\ forallb sec_local_ok (cm_sections cm) = true
+  /\ (forall e, cm_entry cm = Some e -> In (e, NCode) T)
+  /\ (forall y r, In y (cm_symbols cm) -> cy_payload y = CPRef r -> exists k, In (r, k) T /\ is_block_kind k = true)
+  /\ (forall s b kv y, In s (cm_sections cm) -> In b (cs_bis s) -> In kv (ci_symx b) -> In y (expr_syms (snd kv)) ->
+                       In (y, NSym) T).
+
+Lemma Rmod_mono : forall t t' pm cm, incl t t' -> Rmod t pm cm -> Rmod t' pm cm.
+Proof.
+  intros t t' pm cm Hi [H1 [H2 [H3 [H4 [H5 H6]]]]].
+  split; [exact H1|]. split; [exact H2|]. split; [exact H3|]. split; [|split].
+  - intros e He. apply Hi. exact (H4 e He).
+  - intros y r Hy Hr. destruct (H5 y r Hy Hr) as [k [Hk Hb]]. exists k. split; [apply Hi; exact Hk|exact Hb].
+  - intros s b kv y Hs Hb Hkv Hy. apply Hi. exact (H6 s b kv y Hs Hb Hkv Hy).
+Qed.
+
+Lemma mod_msg_ok_inv : forall m, mod_msg_ok m = true ->
+  bytes_ok (m_uuid m) = true /\ forallb sym_msg_ok (m_symbols m) = true /\ forallb bytes_ok (m_proxies m) = true
+  /\ forallb sec_msg_ok (m_sections m) = true /\ bytes_ok (m_entry m) = true.
+Proof.
+  intros m H. unfold mod_msg_ok in H. repeat rewrite andb_true_iff in H.
+  destruct H as [[[[H1 H2] H3] H4] H5]. repeat split; assumption.
+Qed.
+
+Lemma decode_module_inv : forall t pm cm t3,
+  decode_module t pm = Ok (cm, t3) -> mod_msg_ok pm = true -> tinv t ->
+  t3 = ents_module cm ++ t /\ tinv t3 /\ Rmod t3 pm cm.
+Proof.
+  intros t pm cm t3 H Hok Ht. unfold decode_module in H.
+  destruct (mod_msg_ok_inv _ Hok) as [Hu_ok [Hsy_ok [Hpx_ok [Hsec_ok Hent_ok]]]].
+  bind_inv H u Hu. bind_inv H x1 Hfr. bind_inv H x2 He1. bind_inv H x3 He2. bind_inv H x4 He3.
+  bind_inv H r1 Hr1. destruct r1 as [proxies t1]. cbv beta iota in H.
+  bind_inv H r2 Hr2. destruct r2 as [secs0 t2]. cbv beta iota in H.
+  bind_inv H entry Hent.
+  bind_inv H r3 Hr3. destruct r3 as [syms t4]. cbv beta iota in H.
+  bind_inv H secs Hsecs. injection H as <- <-.
+  assert (Ht0 : tinv ((u, NMod) :: t)).
+  { apply tinv_cons; [exact Ht|exact (fresh_notIn _ _ _ _ Hfr)|exact (uuid_of_bytes_range _ _ Hu Hu_ok)]. }
+  apply map_decode_proxy_inv in Hr1; [|apply forallb_Forall; exact Hpx_ok|exact Ht0].
+  destruct Hr1 as [E1 [Ht1 HFp]].
+  apply map_decode_section_inv in Hr2; [|apply forallb_Forall; exact Hsec_ok|exact Ht1].
+  destruct Hr2 as [E2 [Ht2 HFs0]].
+  apply map_decode_symbol_inv in Hr3; [|apply forallb_Forall; exact Hsy_ok|exact Ht2].
+  destruct Hr3 as [E3 [Ht3 HFy]].
+  apply map_res0_Forall2 in Hsecs.
+  assert (HFs : Forall2 (Rsec t4) (m_sections pm) secs).
+  { pose proof (Forall2_comp _ _ _ _ HFs0 _ Hsecs) as HF. revert HF. apply Forall2_impl.
+    intros ps s [s0 [H0 Hfin]]. exact (proj1 (finish_section_inv _ _ _ _ H0 Hfin)). }
+  assert (Esecs : rflat ents_sec0 secs0 = rflat ents_sec secs).
+  { apply rflat_ext2. revert Hsecs. apply Forall2_impl_in. intros s0 s Hs0 Hs Hfin.
+    destruct (Forall2_in_r _ _ _ HFs0 s0 Hs0) as [ps [_ H0]].
+    exact (proj2 (finish_section_inv _ _ _ _ H0 Hfin)). }
+  assert (Hentry : match entry with Some e => bytes_of_uuid e | None => [] end = m_entry pm
+                   /\ forall e, entry = Some e -> In (e, NCode) t2).
+  { destruct (m_entry pm) as [|b0 bs].
+    - injection Hent as <-. split; [reflexivity|]. intros e He. discriminate He.
+    - bind_inv Hent e0 He0. injection Hent as <-. apply resolve_ok in He0.
+      destruct He0 as [He0 [k [Hk Hb]]]. apply nkind_eqb_eq in Hb. subst k.
+      split; [exact (bytes_of_uuid_of_bytes _ _ He0 Hent_ok)|].
+      intros e He. injection He as <-. exact Hk. }
+  destruct Hentry as [Eentry Hentry].
+  assert (Hi24 : incl t2 t4) by (rewrite E3; apply incl_appr; apply incl_refl).
+  split; [|split].
+  - unfold ents_module. cbn [cm_symbols cm_sections cm_proxies cm_uuid].
+    rewrite E3, E2, E1, Esecs. repeat rewrite <- app_assoc. reflexivity.
+  - exact Ht3.
+  - unfold Rmod. cbn [cm_uuid cm_name cm_binary_path cm_isa cm_file_format cm_byte_order cm_preferred_addr
+                       cm_rebase_delta cm_entry cm_proxies cm_sections cm_symbols cm_aux].
+    split; [|split; [|split; [|split; [|split]]]].
+    + unfold module_to_proto, norm_module.
+      cbn [cm_uuid cm_name cm_binary_path cm_isa cm_file_format cm_byte_order cm_preferred_addr
+           cm_rebase_delta cm_entry cm_proxies cm_sections cm_symbols cm_aux].
+      rewrite (bytes_of_uuid_of_bytes _ _ Hu Hu_ok), Eentry.
+      assert (Ey : map symbol_to_proto syms = m_symbols pm).
+      { rewrite <- (map_id (m_symbols pm)). apply Forall2_map_eq. revert HFy. apply Forall2_impl.
+        intros x y [Hxy _]. exact Hxy. }
+      assert (Ep : map bytes_of_uuid proxies = m_proxies pm).
+      { rewrite <- (map_id (m_proxies pm)). apply Forall2_map_eq. revert HFp. apply Forall2_impl.
+        intros x y Hxy. exact Hxy. }
+      assert (Es : map section_to_proto secs = map norm_section (m_sections pm)).
+      { apply Forall2_map_eq. revert HFs. apply Forall2_impl. intros x y [Hxy _]. exact Hxy. }
+      rewrite Ey, Ep, Es. reflexivity.
+    + rewrite (check_enum_ok _ _ _ He1), (check_enum_ok _ _ _ He2), (check_enum_ok _ _ _ He3). reflexivity.
+    + apply (Forall2_forallb_r _ _ _ _ HFs). intros x y [_ [H2 _]]. exact H2.
+    + intros e He. apply Hi24. exact (Hentry e He).
+    + intros y r Hy Hr. destruct (Forall2_in_r _ _ _ HFy y Hy) as [py [_ [_ H2]]]. exact (H2 r Hr).
+    + intros s b kv y Hs Hb Hkv Hy.
+      destruct (Forall2_in_r _ _ _ HFs s Hs) as [ps [_ [_ [_ H3]]]]. exact (H3 b kv y Hb Hkv Hy).
+Qed.
+
+Lemma map_decode_module_inv : forall l t ys t',
+  map_res decode_module t l = Ok (ys, t') -> Forall (fun m => mod_msg_ok m = true) l -> tinv t ->
+  t' = rflat ents_module ys ++ t /\ tinv t' /\ Forall2 (Rmod t') l ys.
+Proof.
+  intros l t ys t' H HP Ht.
+  apply (map_res_inv decode_module ents_module (fun m => mod_msg_ok m = true) Rmod) in H;
+    [exact H| |exact Rmod_mono|exact HP|exact Ht].
+  intros t0 x y t1 H0 Hx Ht0. exact (decode_module_inv _ _ _ _ H0 Hx Ht0).
+Qed.
+
+(* ------------------------------------------------------------------ *)
+(* what the entries of a module are                                     *)
+(* ------------------------------------------------------------------ *)
+Lemma ents_bi_cases : forall b u k, In (u, k) (ents_bi b) ->
+  (exists bl, In bl (ci_blocks b) /\ u = cb_uuid bl /\ k = kind_of_block bl) \/ (k = NBI /\ u = ci_uuid b).
+Proof.
+  intros b u k H. unfold ents_bi in H. apply in_app_iff in H. destruct H as [H|[H|[]]].
+  - left. apply rflat_In in H. destruct H as [bl [Hbl [H|[]]]]. injection H as <- <-.
+    exists bl. split; [exact Hbl|]. split; reflexivity.
+  - right. injection H as <- <-. split; reflexivity.
+Qed.
+
+Lemma ents_sec_cases : forall s u k, In (u, k) (ents_sec s) ->
+  (exists b, In b (cs_bis s) /\ In (u, k) (ents_bi b)) \/ (k = NSec /\ u = cs_uuid s).
+Proof.
+  intros s u k H. unfold ents_sec in H. apply in_app_iff in H. destruct H as [H|[H|[]]].
+  - left. apply rflat_In in H. exact H.
+  - right. injection H as <- <-. split; reflexivity.
+Qed.
+
+Lemma ents_module_cases : forall cm u k, In (u, k) (ents_module cm) ->
+  (k = NSym /\ In u (map cy_uuid (cm_symbols cm)))
+  \/ (exists s b bl, In s (cm_sections cm) /\ In b (cs_bis s) /\ In bl (ci_blocks b)
+                     /\ u = cb_uuid bl /\ k = kind_of_block bl)
+  \/ (k = NProxy /\ In u (cm_proxies cm))
+  \/ (is_block_kind k = false /\ k <> NSym).
+Proof.
+  intros cm u k H. unfold ents_module in H.
+  apply in_app_iff in H. destruct H as [H|H].
+  { left. apply rflat_In in H. destruct H as [y [Hy [H|[]]]]. injection H as <- <-.
+    split; [reflexivity|]. apply in_map. exact Hy. }
+  apply in_app_iff in H. destruct H as [H|H].
+  { apply rflat_In in H. destruct H as [s [Hs H]]. apply ents_sec_cases in H. destruct H as [[b [Hb H]]|[-> _]].
+    - apply ents_bi_cases in H. destruct H as [[bl [Hbl [-> ->]]]|[-> _]].
+      + right. left. exists s, b, bl. repeat split; assumption.
+      + right. right. right. split; [reflexivity|discriminate].
+    - right. right. right. split; [reflexivity|discriminate]. }
+  apply in_app_iff in H. destruct H as [H|[H|[]]].
+  - apply rflat_In in H. destruct H as [x [Hx [H|[]]]]. injection H as <- <-.
+    right. right. left. split; [reflexivity|exact Hx].
+  - injection H as <- <-. right. right. right. split; [reflexivity|discriminate].
+Qed.
+
+Lemma In_module_blocks : forall cm s b bl,
+  In s (cm_sections cm) -> In b (cs_bis s) -> In bl (ci_blocks b) -> In bl (module_blocks cm).
+Proof.
+  intros cm s b bl Hs Hb Hbl. unfold module_blocks. apply in_flat_map. exists s. split; [exact Hs|].
+  apply in_flat_map. exists b. split; assumption.
+Qed.
+
+Lemma ents_module_sym : forall cm u, In (u, NSym) (ents_module cm) -> In u (map cy_uuid (cm_symbols cm)).
+Proof.
+  intros cm u H. apply ents_module_cases in H.
+  destruct H as [[_ H]|[[s [b [bl [_ [_ [_ [_ H]]]]]]]|[[H _]|[_ H]]]].
+  - exact H.
+  - unfold kind_of_block in H. destruct (cb_code bl); discriminate H.
+  - discriminate H.
+  - exfalso. apply H. reflexivity.
+Qed.
+
+Lemma ents_module_code : forall cm u, In (u, NCode) (ents_module cm) -> In u (code_uuids cm).
+Proof.
+  intros cm u H. apply ents_module_cases in H.
+  destruct H as [[H _]|[[s [b [bl [Hs [Hb [Hbl [-> H]]]]]]]|[[H _]|[H _]]]]; try discriminate H.
+  unfold code_uuids. apply in_flat_map. exists bl. split; [exact (In_module_blocks _ _ _ _ Hs Hb Hbl)|].
+  unfold kind_of_block in H. destruct (cb_code bl); [left; reflexivity|discriminate H].
+Qed.
+
+Lemma ents_module_block : forall cm u k,
+  In (u, k) (ents_module cm) -> is_block_kind k = true -> In u (block_uuids cm).
+Proof.
+  intros cm u k H Hk. apply ents_module_cases in H. unfold block_uuids. apply in_app_iff.
+  destruct H as [[-> _]|[[s [b [bl [Hs [Hb [Hbl [-> _]]]]]]]|[[_ H]|[H _]]]].
+  - discriminate Hk.
+  - left. apply in_map. exact (In_module_blocks _ _ _ _ Hs Hb Hbl).
+  - right. exact H.
+  - rewrite H in Hk. discriminate Hk.
+Qed.
+
+Lemma ents_module_cfg : forall cm u k,
+  In (u, k) (ents_module cm) -> is_cfg_kind k = true -> In u (module_cfg_nodes cm).
+Proof.
+  intros cm u k H Hk. apply ents_module_cases in H. unfold module_cfg_nodes. apply in_app_iff.
+  destruct H as [[-> _]|[[s [b [bl [Hs [Hb [Hbl [-> ->]]]]]]]|[[_ H]|[H _]]]].
+  - discriminate Hk.
+  - left. apply in_flat_map. exists s. split; [exact Hs|]. apply in_flat_map. exists b. split; [exact Hb|].
+    apply in_flat_map. exists bl. split; [exact Hbl|].
+    unfold kind_of_block in Hk. destruct (cb_code bl); [left; reflexivity|discriminate Hk].
+  - right. exact H.
+  - destruct k; try discriminate Hk; discriminate H.
+Qed.
+
+(* the UUIDs of the entries are the UUIDs of the module *)
+Lemma perm3 : forall (A B C : list Z) x, Permutation (A ++ B ++ C ++ [x]) (x :: C ++ B ++ A).
+Proof.
+  intros A B C x. eapply Permutation_trans; [|apply Permutation_sym; apply Permutation_cons_append].
+  replace (A ++ B ++ C ++ [x]) with ((A ++ B ++ C) ++ [x]) by (repeat rewrite <- app_assoc; reflexivity).
+  apply Permutation_app_tail.
+  eapply Permutation_trans; [apply Permutation_app_comm|]. rewrite (app_assoc C B A).
+  apply Permutation_app_tail. apply Permutation_app_comm.
+Qed.
+
+Lemma ents_block_perm : forall bl, Permutation (tdom (ents_block bl)) [cb_uuid bl].
+Proof. intros bl. apply Permutation_refl. Qed.
+
+Lemma ents_bi_perm : forall b, Permutation (tdom (ents_bi b)) (ci_uuid b :: map cb_uuid (ci_blocks b)).
+Proof.
+  intros b. unfold ents_bi. rewrite tdom_app. cbn [tdom map fst].
+  eapply Permutation_trans; [apply Permutation_sym; apply Permutation_cons_append|].
+  apply perm_skip. rewrite <- flat_map_single. apply (rflat_perm ents_block (fun bl => [cb_uuid bl]) ents_block_perm).
+Qed.
+
+Lemma ents_sec_perm : forall s,
+  Permutation (tdom (ents_sec s)) (cs_uuid s :: flat_map (fun b => ci_uuid b :: map cb_uuid (ci_blocks b)) (cs_bis s)).
+Proof.
+  intros s. unfold ents_sec. rewrite tdom_app. cbn [tdom map fst].
+  eapply Permutation_trans; [apply Permutation_sym; apply Permutation_cons_append|].
+  apply perm_skip. apply (rflat_perm ents_bi _ ents_bi_perm).
+Qed.
+
+Lemma ents_module_perm : forall cm, Permutation (tdom (ents_module cm)) (all_uuids_module cm).
+Proof.
+  intros cm. unfold ents_module, all_uuids_module. repeat rewrite tdom_app. cbn [tdom map fst].
+  eapply Permutation_trans; [apply perm3|]. apply perm_skip.
+  apply Permutation_app; [|apply Permutation_app].
+  - rewrite <- (map_id (cm_proxies cm)) at 2. rewrite <- flat_map_single.
+    apply (rflat_perm ents_proxy (fun u => [u])). intros u. apply Permutation_refl.
+  - apply (rflat_perm ents_sec _ ents_sec_perm).
+  - rewrite <- flat_map_single. apply (rflat_perm ents_sym (fun y => [cy_uuid y])). intros y. apply Permutation_refl.
+Qed.
+
+(* ------------------------------------------------------------------ *)
+(* modules_ok                                                           *)
+(* ------------------------------------------------------------------ *)
+Definition acc_inv (t : table) (codes blocks syms : list Z) : Prop :=
+  forall u k, In (u, k) t ->
+    (k = NCode -> In u codes) /\ (is_block_kind k = true -> In u blocks) /\ (k = NSym -> In u syms).
+
+Lemma acc_inv_step : forall t codes blocks syms cm,
+  acc_inv t codes blocks syms ->
+  acc_inv (ents_module cm ++ t) (codes ++ code_uuids cm) (blocks ++ block_uuids cm)
+          (syms ++ map cy_uuid (cm_symbols cm)).
+Proof.
+  intros t codes blocks syms cm Ha u k H. apply in_app_iff in H. destruct H as [H|H].
+  - split; [|split]; intros Hk; apply in_app_iff; right.
+    + subst k. apply ents_module_code. exact H.
+    + exact (ents_module_block _ _ _ H Hk).
+    + subst k. apply ents_module_sym. exact H.
+  - destruct (Ha u k H) as [H1 [H2 H3]].
+    split; [|split]; intros Hk; apply in_app_iff; left; [apply H1|apply H2|apply H3]; exact Hk.
+Qed.
+
+Lemma module_ok_accept : forall t codes blocks syms pm cm,
+  Rmod (ents_module cm ++ t) pm cm -> acc_inv t codes blocks syms -> module_ok codes blocks syms cm = true.
+Proof.
+  intros t codes blocks syms pm cm [_ [Hen [Hsec [Hentry [Hsym Hx]]]]] Ha.
+  pose proof (acc_inv_step _ _ _ _ cm Ha) as Ha'.
+  unfold module_ok. rewrite Hen. cbn [andb].
+  repeat rewrite andb_true_iff. split; [split; [split|]|].
+  - exact Hsec.
+  - destruct (cm_entry cm) as [e|]; [|reflexivity]. apply mem_z_In.
+    exact (proj1 (Ha' e NCode (Hentry e eq_refl)) eq_refl).
+  - apply forallb_forall. intros y Hy. destruct (cy_payload y) as [|v|r] eqn:Ep; try reflexivity.
+    apply mem_z_In. destruct (Hsym y r Hy Ep) as [k [Hk Hb]].
+    exact (proj1 (proj2 (Ha' r k Hk)) Hb).
+  - apply forallb_forall. intros s Hs. apply forallb_forall. intros b Hb.
+    apply forallb_forall. intros kv Hkv. apply forallb_forall. intros y Hy.
+    apply mem_z_In. exact (proj2 (proj2 (Ha' y NSym (Hx s b kv y Hs Hb Hkv Hy))) eq_refl).
+Qed.
+
+Lemma modules_ok_accept : forall pms t mods t' codes blocks syms,
+  map_res decode_module t pms = Ok (mods, t') -> Forall (fun m => mod_msg_ok m = true) pms -> tinv t ->
+  acc_inv t codes blocks syms -> modules_ok codes blocks syms mods = true.
+Proof.
+  induction pms as [|pm pms IH]; intros t mods t' codes blocks syms H HP Ht Ha; cbn [map_res] in H.
+  - injection H as <- <-. reflexivity.
+  - bind_inv H r Hr. destruct r as [cm t1]. cbv beta iota in H.
+    bind_inv H r' Hr'. destruct r' as [mods' t2]. cbv beta iota in H. injection H as <- <-.
+    inversion HP as [|x l HPx HPl]; subst.
+    destruct (decode_module_inv _ _ _ _ Hr HPx Ht) as [E1 [Ht1 HR]]. subst t1.
+    cbn [modules_ok]. rewrite (module_ok_accept _ _ _ _ _ _ HR Ha). cbn [andb].
+    apply (IH _ _ _ _ _ _ Hr' HPl Ht1). apply acc_inv_step. exact Ha.
+Qed.
+
+(* ------------------------------------------------------------------ *)
+(* edges                                                                *)
+(* ------------------------------------------------------------------ *)
+Definition edge_label_ok (e : cEdge) : bool :=
+  match ce_label e with Some (ty, _, _) => enum_ok "EdgeType" ty | None => true end.
+Definition Redge (T : table) (pe : pEdge) (e : cEdge) : Prop :=
+  edge_to_proto e = pe
+  /\ uuid_of_bytes (e_src pe) = Ok (ce_src e) /\ uuid_of_bytes (e_dst pe) = Ok (ce_dst e)
+  /\ (exists k, In (ce_src e, k) T /\ is_cfg_kind k = true)
+  /\ (exists k, In (ce_dst e, k) T /\ is_cfg_kind k = true)
+  /\ edge_label_ok e = true.
+
+Lemma decode_edge_inv : forall T pe e,
+  decode_edge T pe = Ok e -> edge_msg_ok pe = true -> Redge T pe e.
+Proof.
+  intros T [src dst lbl] e H Hok. unfold decode_edge in H. unfold edge_msg_ok in Hok.
+  cbn [e_src e_dst e_label] in *. apply andb_true_iff in Hok. destruct Hok as [Hs_ok Hd_ok].
+  bind_inv H s Hs. bind_inv H d Hd. bind_inv H l Hl. injection H as <-.
+  apply resolve_ok in Hs. destruct Hs as [Hs Hsk]. apply resolve_ok in Hd. destruct Hd as [Hd Hdk].
+  unfold Redge. cbn [ce_src ce_dst ce_label e_src e_dst].
+  split; [|split; [exact Hs|split; [exact Hd|split; [exact Hsk|split; [exact Hdk|]]]]].
+  - unfold edge_to_proto. cbn [ce_src ce_dst ce_label].
+    rewrite (bytes_of_uuid_of_bytes _ _ Hs Hs_ok), (bytes_of_uuid_of_bytes _ _ Hd Hd_ok).
+    destruct lbl as [[c dr ty]|].
+    + bind_inv Hl x He. injection Hl as <-. reflexivity.
+    + injection Hl as <-. reflexivity.
+  - unfold edge_label_ok. cbn [ce_label]. destruct lbl as [[c dr ty]|].
+    + bind_inv Hl x He. injection Hl as <-. cbn [l_type]. exact (check_enum_ok _ _ _ He).
+    + injection Hl as <-. reflexivity.
+Qed.
+
+Lemma olabel_eqb_eq : forall a b, olabel_eqb a b = true <-> a = b.
+Proof.
+  intros [[[t1 c1] d1]|] [[[t2 c2] d2]|]; cbn [olabel_eqb]; split; intros H;
+    try discriminate H; try reflexivity.
+  - repeat rewrite andb_true_iff in H. destruct H as [[H1 H2] H3].
+    apply Z.eqb_eq in H1. apply Bool.eqb_prop in H2. apply Bool.eqb_prop in H3. subst. reflexivity.
+  - injection H as -> -> ->. rewrite Z.eqb_refl, !Bool.eqb_reflx. reflexivity.
+Qed.
+
+Lemma cedge_eqb_eq : forall a b, cedge_eqb a b = true <-> a = b.
+Proof.
+  intros [s1 d1 l1] [s2 d2 l2]. unfold cedge_eqb. cbn [ce_src ce_dst ce_label].
+  repeat rewrite andb_true_iff. rewrite !Z.eqb_eq, olabel_eqb_eq. split.
+  - intros [[-> ->] ->]. reflexivity.
+  - intros H. injection H as -> -> ->. repeat split.
+Qed.
+
+Lemma existsb_cedge_In : forall e l, existsb (cedge_eqb e) l = true <-> In e l.
+Proof.
+  intros e l. rewrite existsb_exists. split.
+  - intros [x [Hx E]]. apply cedge_eqb_eq in E. subst x. exact Hx.
+  - intros H. exists e. split; [exact H|apply cedge_eqb_eq; reflexivity].
+Qed.
+
+Lemma dedup_edges_spec : forall l seen,
+  NoDup (dedup_edges seen l) /\ forall e, In e (dedup_edges seen l) -> In e l /\ ~ In e seen.
+Proof.
+  induction l as [|x l IH]; intros seen; cbn [dedup_edges].
+  - split; [constructor|intros e []].
+  - destruct (existsb (cedge_eqb x) seen) eqn:E.
+    + destruct (IH seen) as [H1 H2]. split; [exact H1|].
+      intros e He. destruct (H2 e He) as [Ha Hb]. split; [right; exact Ha|exact Hb].
+    + destruct (IH (x :: seen)) as [H1 H2]. split.
+      * constructor; [|exact H1]. intros Hx. destruct (H2 x Hx) as [_ Hb]. apply Hb. left. reflexivity.
+      * intros e [He|He].
+        -- subst e. split; [left; reflexivity|]. intros Hin. apply existsb_cedge_In in Hin.
+           rewrite Hin in E. discriminate E.
+        -- destruct (H2 e He) as [Ha Hb]. split; [right; exact Ha|]. intros Hin. apply Hb. right. exact Hin.
+Qed.
+
+Lemma nodup_edges_NoDup : forall l, NoDup l -> nodup_edges l = true.
+Proof.
+  induction l as [|x l IH]; intros H; cbn [nodup_edges]; [reflexivity|].
+  inversion H as [|x' l' Hx Hl]; subst. rewrite (IH Hl), andb_true_r. apply negb_true_iff.
+  destruct (existsb (cedge_eqb x) l) eqn:E; [|reflexivity].
+  apply existsb_cedge_In in E. contradiction.
+Qed.
+
+(* ------------------------------------------------------------------ *)
+(* the accepted content                                                 *)
+(* ------------------------------------------------------------------ *)
+Lemma msg_ok_inv : forall p, msg_ok p = true ->
+  bytes_ok (i_uuid p) = true /\ forallb mod_msg_ok (i_modules p) = true /\ forallb edge_msg_ok (i_edges p) = true.
+Proof.
+  intros p H. unfold msg_ok in H. repeat rewrite andb_true_iff in H. destruct H as [[H1 H2] H3].
+  repeat split; assumption.
+Qed.
+
+Lemma from_proto_inv : forall p c, msg_ok p = true -> from_proto p = Ok c ->
+  exists u t es,
+    uuid_of_bytes (i_uuid p) = Ok u /\ i_version p = py_protobuf_version
+    /\ map_res decode_module [(u, NIR)] (i_modules p) = Ok (cr_modules c, t)
+    /\ t = rflat ents_module (cr_modules c) ++ [(u, NIR)] /\ tinv t
+    /\ Forall2 (Rmod t) (i_modules p) (cr_modules c)
+    /\ Forall2 (Redge t) (i_edges p) es
+    /\ cr_uuid c = u /\ cr_version c = i_version p /\ cr_edges c = dedup_edges [] es /\ cr_aux c = i_aux p.
+Proof.
+  intros p c Hok H. destruct (msg_ok_inv _ Hok) as [Hu_ok [Hm_ok He_ok]].
+  unfold from_proto in H. bind_inv H u Hu.
+  destruct (i_version p =? py_protobuf_version) eqn:Ev; cbn [negb] in H; [|discriminate H].
+  bind_inv H r Hr. destruct r as [mods t]. cbv beta iota in H.
+  bind_inv H es Hes. injection H as <-. cbn [cr_modules].
+  assert (Ht0 : tinv [(u, NIR)]).
+  { apply tinv_cons; [split; constructor|intros []|exact (uuid_of_bytes_range _ _ Hu Hu_ok)]. }
+  pose proof Hr as Hr'.
+  apply map_decode_module_inv in Hr'; [|apply forallb_Forall; exact Hm_ok|exact Ht0].
+  destruct Hr' as [E [Ht HF]].
+  exists u, t, es. split; [exact Hu|]. split; [apply Z.eqb_eq; exact Ev|]. split; [exact Hr|].
+  split; [exact E|]. split; [exact Ht|]. split; [exact HF|]. split; [|repeat split].
+  apply map_res0_Forall2 in Hes.
+  apply (Forall2_Forall_l _ (fun e => edge_msg_ok e = true)) in Hes; [|apply forallb_Forall; exact He_ok].
+  revert Hes. apply Forall2_impl. intros pe e [Hpe Hd]. exact (decode_edge_inv _ _ _ Hd Hpe).
+Qed.
+
+Lemma final_table_cfg : forall mods u0 x k,
+  In (x, k) (rflat ents_module mods ++ [(u0, NIR)]) -> is_cfg_kind k = true ->
+  In x (flat_map module_cfg_nodes mods).
+Proof.
+  intros mods u0 x k H Hk. apply in_app_iff in H. destruct H as [H|[H|[]]].
+  - apply rflat_In in H. destruct H as [m [Hm H]]. apply in_flat_map. exists m. split; [exact Hm|].
+    exact (ents_module_cfg _ _ _ H Hk).
+  - injection H as <- <-. discriminate Hk.
+Qed.
+
+Lemma final_table_perm : forall mods u,
+  Permutation (tdom (rflat ents_module mods ++ [(u, NIR)])) (u :: flat_map all_uuids_module mods).
+Proof.
+  intros mods u. rewrite tdom_app. cbn [tdom map fst].
+  eapply Permutation_trans; [apply Permutation_sym; apply Permutation_cons_append|].
+  apply perm_skip. apply (rflat_perm ents_module _ ents_module_perm).
+Qed.
+
+(* (1) the reader accepts only coherent contents *)
+Theorem accept_coherent : forall p c, msg_ok p = true -> from_proto p = Ok c -> wf c = true.
+Proof.
+  intros p c Hok H. destruct (msg_ok_inv _ Hok) as [_ [Hm_ok _]].
+  destruct (from_proto_inv _ _ Hok H)
+    as [u [t [es [Hu [Hv [Hr [Et [[Hnd Hrng] [HFm [HFe [Ecu [Ecv [Hedges Eaux]]]]]]]]]]]]].
+  assert (Hperm : Permutation (tdom t) (all_uuids c)).
+  { rewrite Et. unfold all_uuids. rewrite Ecu. apply final_table_perm. }
+  assert (Hver : cr_version c = py_protobuf_version) by (rewrite Ecv; exact Hv).
+  destruct (dedup_edges_spec es []) as [Hend Hein].
+  unfold wf. repeat rewrite andb_true_iff. repeat split.
+  - apply forallb_forall. intros x Hx. rewrite Forall_forall in Hrng. apply Hrng.
+    apply (Permutation_in _ (Permutation_sym Hperm)). exact Hx.
+  - apply nodup_z_NoDup. apply (Permutation_NoDup Hperm). exact Hnd.
+  - apply Z.eqb_eq. exact Hver.
+  - apply (modules_ok_accept _ _ _ _ _ _ _ Hr); [apply forallb_Forall; exact Hm_ok| |].
+    + apply tinv_cons; [split; constructor|intros []|].
+      rewrite Forall_forall in Hrng. apply Hrng. rewrite Et, tdom_app. apply in_app_iff. right. left. reflexivity.
+    + intros x k [Hx|[]]. injection Hx as <- <-.
+      split; [|split]; intros Hk; discriminate Hk.
+  - rewrite Hedges. apply forallb_forall. intros e He. destruct (Hein e He) as [He' _].
+    destruct (Forall2_in_r _ _ _ HFe e He') as [pe [_ [_ [_ [_ [[k1 [Hk1 Hc1]] [[k2 [Hk2 Hc2]] Hl]]]]]]].
+    rewrite Et in Hk1, Hk2.
+    repeat rewrite andb_true_iff. split; [split|].
+    + apply mem_z_In. exact (final_table_cfg _ _ _ _ Hk1 Hc1).
+    + apply mem_z_In. exact (final_table_cfg _ _ _ _ Hk2 Hc2).
+    + exact Hl.
+  - rewrite Hedges. apply nodup_edges_NoDup. exact Hend.
+Qed.
+
+(* ------------------------------------------------------------------ *)
+(* corollaries of coherence                                             *)
+(* ------------------------------------------------------------------ *)
+Lemma wf_inv : forall c, wf c = true ->
+  forallb uuid_ok (all_uuids c) = true /\ nodup_z (all_uuids c) = true
+  /\ cr_version c = py_protobuf_version /\ modules_ok [] [] [] (cr_modules c) = true
+  /\ forallb (fun e => mem_z (ce_src e) (flat_map module_cfg_nodes (cr_modules c))
+                       && mem_z (ce_dst e) (flat_map module_cfg_nodes (cr_modules c))
+                       && match ce_label e with Some (t, _, _) => enum_ok "EdgeType" t | None => true end)
+             (cr_edges c) = true
+  /\ nodup_edges (cr_edges c) = true.
+Proof.
+  intros c H. unfold wf in H. repeat rewrite andb_true_iff in H.
+  destruct H as [[[[[H1 H2] H3] H4] H5] H6]. apply Z.eqb_eq in H3. repeat split; assumption.
+Qed.
+
+Theorem loaded_unique : forall p c, msg_ok p = true -> from_proto p = Ok c -> NoDup (all_uuids c).
+Proof.
+  intros p c Hok H. apply nodup_z_NoDup.
+  exact (proj1 (proj2 (wf_inv _ (accept_coherent _ _ Hok H)))).
+Qed.
+
+Theorem loaded_uuids_in_range : forall p c, msg_ok p = true -> from_proto p = Ok c ->
+  forall u, In u (all_uuids c) -> 0 <= u < 2 ^ 128.
+Proof.
+  intros p c Hok H u Hu.
+  pose proof (proj1 (wf_inv _ (accept_coherent _ _ Hok H))) as Hr.
+  rewrite forallb_forall in Hr. specialize (Hr u Hu). unfold uuid_ok in Hr.
+  apply andb_true_iff in Hr. destruct Hr as [H1 H2]. apply Z.leb_le in H1. apply Z.ltb_lt in H2.
+  split; assumption.
+Qed.
+
+Definition refs_closed (c : cIR) : Prop :=
+  let ms := cr_modules c in
+  (forall m y r, In m ms -> In y (cm_symbols m) -> cy_payload y = CPRef r -> In r (flat_map block_uuids ms))
+  /\ (forall m e, In m ms -> cm_entry m = Some e -> In e (flat_map code_uuids ms))
+  /\ (forall e, In e (cr_edges c) ->
+        In (ce_src e) (flat_map module_cfg_nodes ms) /\ In (ce_dst e) (flat_map module_cfg_nodes ms))
+  /\ (forall m s b kv y, In m ms -> In s (cm_sections m) -> In b (cs_bis s) -> In kv (ci_symx b) ->
+        In y (expr_syms (snd kv)) -> In y (flat_map (fun m' => map cy_uuid (cm_symbols m')) ms)).
+
+Lemma in_app3_l : forall (a b c : list Z) x, In x (a ++ b) -> In x (a ++ b ++ c).
+Proof. intros a b c x H. rewrite app_assoc. apply in_app_iff. left. exact H. Qed.
+
+Lemma modules_ok_refs : forall ms codes blocks syms,
+  modules_ok codes blocks syms ms = true -> forall m, In m ms ->
+  (forall e, cm_entry m = Some e -> In e (codes ++ flat_map code_uuids ms))
+  /\ (forall y r, In y (cm_symbols m) -> cy_payload y = CPRef r -> In r (blocks ++ flat_map block_uuids ms))
+  /\ (forall s b kv y, In s (cm_sections m) -> In b (cs_bis s) -> In kv (ci_symx b) -> In y (expr_syms (snd kv)) ->
+        In y (syms ++ flat_map (fun m' => map cy_uuid (cm_symbols m')) ms)).
+Proof.
+  induction ms as [|m0 ms IH]; intros codes blocks syms H m Hm; [destruct Hm|].
+  cbn [modules_ok] in H. apply andb_true_iff in H. destruct H as [H0 Hrest].
+  cbn [flat_map]. destruct Hm as [Hm|Hm].
+  - subst m0. unfold module_ok in H0. repeat rewrite andb_true_iff in H0.
+    destruct H0 as [[[_ Hent] Hsym] Hx]. split; [|split].
+    + intros e He. rewrite He in Hent. apply mem_z_In in Hent. apply in_app3_l. exact Hent.
+    + intros y r Hy Hr. rewrite forallb_forall in Hsym. specialize (Hsym y Hy). rewrite Hr in Hsym.
+      apply mem_z_In in Hsym. apply in_app3_l. exact Hsym.
+    + intros s b kv y Hs Hb Hkv Hy. rewrite forallb_forall in Hx. specialize (Hx s Hs).
+      rewrite forallb_forall in Hx. specialize (Hx b Hb). rewrite forallb_forall in Hx. specialize (Hx kv Hkv).
+      rewrite forallb_forall in Hx. specialize (Hx y Hy). apply mem_z_In in Hx. apply in_app3_l. exact Hx.
+  - destruct (IH _ _ _ Hrest m Hm) as [H1 [H2 H3]]. split; [|split].
+    + intros e He. rewrite app_assoc. exact (H1 e He).
+    + intros y r Hy Hr. rewrite app_assoc. exact (H2 y r Hy Hr).
+    + intros s b kv y Hs Hb Hkv Hy. rewrite app_assoc. exact (H3 s b kv y Hs Hb Hkv Hy).
+Qed.
+
+Lemma wf_refs_closed : forall c, wf c = true -> refs_closed c.
+Proof.
+  intros c H. destruct (wf_inv _ H) as [_ [_ [_ [Hm [He _]]]]].
+  pose proof (modules_ok_refs _ _ _ _ Hm) as HR. cbn [app] in HR.
+  unfold refs_closed. cbv zeta. split; [|split; [|split]].
+  - intros m y r Hm' Hy Hr. exact (proj1 (proj2 (HR m Hm')) y r Hy Hr).
+  - intros m e Hm' Hen. exact (proj1 (HR m Hm') e Hen).
+  - intros e Hin. rewrite forallb_forall in He. specialize (He e Hin).
+    repeat rewrite andb_true_iff in He. destruct He as [[H1 H2] _].
+    split; apply mem_z_In; assumption.
+  - intros m s b kv y Hm' Hs Hb Hkv Hy. exact (proj2 (proj2 (HR m Hm')) s b kv y Hs Hb Hkv Hy).
+Qed.
+
+(* every reference of the loaded content names a node of the loaded content, of an admissible kind *)
+Theorem refs_closed_typed : forall p c, msg_ok p = true -> from_proto p = Ok c -> refs_closed c.
+Proof. intros p c Hok H. apply wf_refs_closed. exact (accept_coherent _ _ Hok H). Qed.
+
+(* ------------------------------------------------------------------ *)
+(* (2) field correspondence                                             *)
+(* ------------------------------------------------------------------ *)
+Lemma blocks_cfg_to_proto : forall blocks,
+  flat_map (fun k => match b_val k with PCode ub _ _ => [ub] | _ => [] end) (map block_to_proto blocks)
+  = map bytes_of_uuid (flat_map (fun k => if cb_code k then [cb_uuid k] else []) blocks).
+Proof.
+  induction blocks as [|k blocks IH]; cbn [map flat_map]; [reflexivity|].
+  rewrite map_app, IH. f_equal. unfold block_to_proto. cbn [b_val]. destruct (cb_code k); reflexivity.
+Qed.
+
+Lemma bis_cfg_to_proto : forall bis,
+  flat_map (fun b => flat_map (fun k => match b_val k with PCode ub _ _ => [ub] | _ => [] end) (bi_blocks b))
+           (map bi_to_proto bis)
+  = map bytes_of_uuid (flat_map (fun b => flat_map (fun k => if cb_code k then [cb_uuid k] else []) (ci_blocks b)) bis).
+Proof.
+  induction bis as [|b bis IH]; cbn [map flat_map]; [reflexivity|].
+  rewrite map_app, IH. f_equal. unfold bi_to_proto at 1. cbn [bi_blocks]. apply blocks_cfg_to_proto.
+Qed.
+
+Lemma secs_cfg_to_proto : forall secs,
+  flat_map (fun s => flat_map (fun b => flat_map (fun k => match b_val k with PCode ub _ _ => [ub] | _ => [] end)
+                                                 (bi_blocks b)) (s_bis s))
+           (map section_to_proto secs)
+  = map bytes_of_uuid
+        (flat_map (fun s => flat_map (fun b => flat_map (fun k => if cb_code k then [cb_uuid k] else []) (ci_blocks b))
+                                     (cs_bis s)) secs).
+Proof.
+  induction secs as [|s secs IH]; cbn [map flat_map]; [reflexivity|].
+  rewrite map_app, IH. f_equal. unfold section_to_proto at 1. cbn [s_bis]. apply bis_cfg_to_proto.
+Qed.
+
+Lemma p_cfg_nodes_to_proto : forall cm, p_cfg_nodes (module_to_proto cm) = map bytes_of_uuid (module_cfg_nodes cm).
+Proof.
+  intros cm. unfold p_cfg_nodes, module_cfg_nodes, module_to_proto. cbn [m_sections m_proxies].
+  rewrite map_app, secs_cfg_to_proto. reflexivity.
+Qed.
+
+Lemma p_cfg_nodes_norm : forall pm, p_cfg_nodes (norm_module pm) = p_cfg_nodes pm.
+Proof.
+  intros pm. unfold p_cfg_nodes, norm_module. cbn [m_sections m_proxies]. f_equal.
+  rewrite flat_map_map. apply flat_map_ext. intros s. unfold norm_section. cbn [s_bis].
+  rewrite flat_map_map. apply flat_map_ext. intros b. reflexivity.
+Qed.
+
+Lemma plabel_eqb_eq : forall a b, plabel_eqb a b = true <-> a = b.
+Proof.
+  intros [[c1 d1 t1]|] [[c2 d2 t2]|]; cbn [plabel_eqb l_type l_cond l_direct]; split; intros H;
+    try discriminate H; try reflexivity.
+  - repeat rewrite andb_true_iff in H. destruct H as [[H1 H2] H3].
+    apply Z.eqb_eq in H1. apply Bool.eqb_prop in H2. apply Bool.eqb_prop in H3. subst. reflexivity.
+  - injection H as -> -> ->. rewrite Z.eqb_refl, !Bool.eqb_reflx. reflexivity.
+Qed.
+
+Lemma pedge_eqb_eq : forall a b, pedge_eqb a b = true <-> a = b.
+Proof.
+  intros [s1 d1 l1] [s2 d2 l2]. unfold pedge_eqb. cbn [e_src e_dst e_label].
+  repeat rewrite andb_true_iff. rewrite !zs_eqb_eq, plabel_eqb_eq. split.
+  - intros [[-> ->] ->]. reflexivity.
+  - intros H. injection H as -> -> ->. repeat split.
+Qed.
+
+Lemma existsb_pedge_In : forall e l, existsb (pedge_eqb e) l = true <-> In e l.
+Proof.
+  intros e l. rewrite existsb_exists. split.
+  - intros [x [Hx E]]. apply pedge_eqb_eq in E. subst x. exact Hx.
+  - intros H. exists e. split; [exact H|apply pedge_eqb_eq; reflexivity].
+Qed.
+
+Definition edge_rt (e : cEdge) : Prop :=
+  uuid_of_bytes (bytes_of_uuid (ce_src e)) = Ok (ce_src e) /\ uuid_of_bytes (bytes_of_uuid (ce_dst e)) = Ok (ce_dst e).
+
+Lemma edge_to_proto_inj : forall a b, edge_rt a -> edge_rt b -> edge_to_proto a = edge_to_proto b -> a = b.
+Proof.
+  intros [s1 d1 l1] [s2 d2 l2] [Ha1 Ha2] [Hb1 Hb2] H.
+  pose proof (f_equal e_src H) as Hs. pose proof (f_equal e_dst H) as Hd. pose proof (f_equal e_label H) as Hl.
+  clear H. unfold edge_to_proto in Hs, Hd, Hl. cbn [ce_src ce_dst ce_label e_src e_dst e_label] in *.
+  rewrite Hs in Ha1. rewrite Ha1 in Hb1. injection Hb1 as ->.
+  rewrite Hd in Ha2. rewrite Ha2 in Hb2. injection Hb2 as ->.
+  f_equal. destruct l1 as [[[t1 c1] r1]|], l2 as [[[t2 c2] r2]|]; try discriminate Hl; [|reflexivity].
+  injection Hl as -> -> ->. reflexivity.
+Qed.
+
+Lemma bool_eq_iff : forall a b : bool, (a = true <-> b = true) -> a = b.
+Proof. intros [|] [|] [H1 H2]; try reflexivity; [symmetry; apply H1; reflexivity|apply H2; reflexivity]. Qed.
+
+Lemma dedup_edges_to_proto : forall es seen,
+  Forall edge_rt es -> Forall edge_rt seen ->
+  map edge_to_proto (dedup_edges seen es) = dedup_pedges (map edge_to_proto seen) (map edge_to_proto es).
+Proof.
+  induction es as [|e es IH]; intros seen Hes Hseen; cbn [dedup_edges dedup_pedges map]; [reflexivity|].
+  inversion Hes as [|e' es' He Hes']; subst.
+  assert (E : existsb (cedge_eqb e) seen = existsb (pedge_eqb (edge_to_proto e)) (map edge_to_proto seen)).
+  { apply bool_eq_iff. rewrite existsb_cedge_In, existsb_pedge_In. split.
+    - intros Hin. apply in_map. exact Hin.
+    - intros Hin. apply in_map_iff in Hin. destruct Hin as [x [Hx Hin]].
+      rewrite Forall_forall in Hseen. rewrite (edge_to_proto_inj e x He (Hseen x Hin) (eq_sym Hx)). exact Hin. }
+  rewrite <- E. destruct (existsb (cedge_eqb e) seen).
+  - apply IH; assumption.
+  - cbn [map]. f_equal. apply (IH (e :: seen)); [assumption|constructor; assumption].
+Qed.
+
+Theorem reader_fields : forall p c, msg_ok p = true -> from_proto p = Ok c -> to_proto c = msg_norm p.
+Proof.
+  intros p c Hok H. destruct (msg_ok_inv _ Hok) as [Hu_ok _].
+  destruct (from_proto_inv _ _ Hok H)
+    as [u [t [es [Hu [Hv [Hr [Et [_ [HFm [HFe [Ecu [Ecv [Hedges Eaux]]]]]]]]]]]]].
+  assert (Em : map module_to_proto (cr_modules c) = map norm_module (i_modules p)).
+  { apply Forall2_map_eq. revert HFm. apply Forall2_impl. intros x y [Hxy _]. exact Hxy. }
+  assert (Ev : map bytes_of_uuid (flat_map module_cfg_nodes (cr_modules c)) = flat_map p_cfg_nodes (i_modules p)).
+  { rewrite map_flat_map.
+    rewrite (flat_map_ext _ (fun m => p_cfg_nodes (module_to_proto m)))
+      by (intros m; symmetry; apply p_cfg_nodes_to_proto).
+    rewrite <- (flat_map_map module_to_proto p_cfg_nodes), Em, flat_map_map.
+    apply flat_map_ext. intros m. apply p_cfg_nodes_norm. }
+  assert (Ees : map edge_to_proto es = i_edges p).
+  { rewrite <- (map_id (i_edges p)). apply Forall2_map_eq. revert HFe. apply Forall2_impl.
+    intros x y [Hxy _]. exact Hxy. }
+  assert (Hrt : Forall edge_rt es).
+  { apply Forall_forall. intros e He. destruct (Forall2_in_r _ _ _ HFe e He) as [pe [_ [E1 [E2 [E3 _]]]]].
+    subst pe. unfold edge_to_proto in E2, E3. cbn [e_src e_dst] in E2, E3. split; assumption. }
+  assert (Ee : map edge_to_proto (dedup_edges [] es) = dedup_pedges [] (i_edges p)).
+  { rewrite (dedup_edges_to_proto es [] Hrt (Forall_nil _)). cbn [map]. rewrite Ees. reflexivity. }
+  unfold to_proto, msg_norm. rewrite Ecu, Ecv, Eaux, Hedges, Em, Ev, Ee.
+  rewrite (bytes_of_uuid_of_bytes _ _ Hu Hu_ok). reflexivity.
+Qed.
+
+(* ------------------------------------------------------------------ *)
+(* non-vacuity: an accepted message with duplicated flags, attributes and edges, an absent address with a stale
+   bi_addr, an entry point, a proxy, a symbol referring to a block, an expression naming a symbol *)
+(* ------------------------------------------------------------------ *)
+Definition ex_uuid (n : Z) : list Z := repeat 0 14 ++ [n; 255].
+Definition ex_edge (l : option pLabel) : pEdge := {| e_src := ex_uuid 5; e_dst := ex_uuid 7; e_label := l |}.
+Definition ex_msg : pIR :=
+  {| i_uuid := ex_uuid 1;
+     i_modules :=
+       [ {| m_uuid := ex_uuid 2; m_binary_path := [47]; m_preferred_addr := 0; m_rebase_delta := 0;
+            m_file_format := 2; m_isa := 3; m_name := [109];
+            m_symbols := [ {| y_uuid := ex_uuid 8; y_payload := PPRef (ex_uuid 5); y_name := [102]; y_at_end := false |};
+                           {| y_uuid := ex_uuid 9; y_payload := PPValue 0; y_name := []; y_at_end := true |} ];
+            m_proxies := [ex_uuid 7];
+            m_sections :=
+              [ {| s_uuid := ex_uuid 3; s_name := [46];
+                   s_bis := [ {| bi_uuid := ex_uuid 4;
+                                 bi_blocks := [ {| b_off := 0; b_val := PCode (ex_uuid 5) 2 0 |};
+                                                {| b_off := 2; b_val := PData (ex_uuid 6) 2 |} ];
+                                 bi_symx := [ (1, {| x_val := PAddrConst 0 (ex_uuid 8); x_attrs := [0; 0; 4] |}) ];
+                                 bi_has_addr := false; bi_addr := 77;
+                                 bi_size := 4; bi_contents := [1; 2; 255] |} ];
+                   s_flags := [1; 1; 3] |} ];
+            m_aux := []; m_entry := ex_uuid 5; m_byte_order := 2 |} ];
+     i_aux := []; i_version := py_protobuf_version; i_vertices := [];
+     i_edges := [ ex_edge None; ex_edge (Some {| l_cond := false; l_direct := true; l_type := 1 |}); ex_edge None ] |}.
+
+Lemma ex_msg_accepted :
+  msg_ok ex_msg = true /\ (exists c, from_proto ex_msg = Ok c /\ length (cr_edges c) = 2%nat)
+  /\ msg_norm ex_msg <> ex_msg.
+Proof.
+  split; [vm_compute; reflexivity|]. split.
+  - eexists. split; vm_compute; reflexivity.
+  - intros H. apply (f_equal (fun p => length (i_edges p))) in H. vm_compute in H. discriminate H.
+Qed.
+
+(* ------------------------------------------------------------------ *)
+Print Assumptions accept_coherent.
+Print Assumptions loaded_unique.
+Print Assumptions loaded_uuids_in_range.
+Print Assumptions refs_closed_typed.
+Print Assumptions reader_fields.
+Print Assumptions bytes_of_uuid_of_bytes.
+Print Assumptions reject_only.
+Print Assumptions resolve_dangling.
+Print Assumptions resolve_illtyped.
+Print Assumptions resolve_badlen.
+Print Assumptions bad_uuid_len.
+Print Assumptions bad_enum.
+Print Assumptions block_without_payload.
+Print Assumptions expr_without_value.
+Print Assumptions bytes_beyond_size.
+Print Assumptions wrong_version.
+Print Assumptions dup_other_kind.
+Print Assumptions fresh_impossible_iff.
+Print Assumptions header_gate.
+Print Assumptions header_reject.
+Print Assumptions load_accept.
+Print Assumptions load_reject.
+Print Assumptions ex_msg_accepted.
